@@ -323,7 +323,7 @@ theorem exp_reject_changes_nothing (e : ExpCfg) (s : ExpState) (v : Val)
     stored value at the output -/
 theorem exp_accepted_put (e : ExpCfg) (s : ExpState) (v w : Val) (h : Accepts e.v v w) :
     (putExp e s v).1.st = .valid ∧ (putExp e s v).1.input = some w ∧
-    (putExp e s v).1.deadline = some (s.now + e.duration) ∧
+    (putExp e s v).1.deadline = e.duration.map (s.now + ·) ∧
     (w ≠ .undef → (putExp e s v).1.out.pyEq w = true) := by
   have hv := (validate_iff e.v v w).2 h
   unfold putExp
@@ -395,38 +395,161 @@ theorem runExp_valid (e : ExpCfg) (hist : List Val) (s : ExpState) (ops : List E
       have := ih hist _ (wait_valid e hist s d h)
       simpa [putsOf, stepExp] using this
 
-/-- **output_always_valid** for InputExp: from a successfully constructed and started block, after
-    EVERY sequence of puts and waits: while 'valid' the value part is the accepted conversion of a
-    submitted value (initdef or put) and the output equals it; when 'expired' the output equals the
-    expired value, which itself passed the validation -/
-theorem exp_output_always_valid (c : Cfg) (initdef expired : Val) (dur : Nat)
-    (inp : Option Val) (x : Val) (s0 : ExpState) (ops : List ExpOp)
+/-- the regular initialisation of a constructed InputExp is valid -/
+theorem initExp_valid (c : Cfg) (initdef : Val) (dur : Option Nat) (inp : Option Val) (x : Val) (s0 : ExpState)
+    (hi : (initdef = .undef ∧ inp = none) ∨ (initdef ≠ .undef ∧ ∃ w, Accepts c initdef w ∧ inp = some w))
+    (hs : initExp ⟨c, dur, x⟩ inp = some s0) : ExpValid ⟨c, dur, x⟩ [initdef] s0 := by
+  rcases hi with ⟨_, hi⟩ | ⟨_, w, hacc, hi⟩
+  · subst hi
+    simp only [initExp] at hs
+    split at hs
+    · cases hs
+    · injection hs with hs
+      subst hs
+      simp only [ExpValid]
+      intro _
+      exact Val.pyEq_refl x
+  · subst hi
+    simp only [initExp] at hs
+    split at hs
+    · cases hs
+    · injection hs with hs
+      subst hs
+      simp only [ExpValid]
+      exact ⟨w, rfl, ⟨initdef, by simp, hacc⟩, fun _ => Val.pyEq_refl w⟩
+
+/-- a restored state is valid w.r.t. the saved value: a 'valid' state holds the accepted conversion of
+    the saved value (with the repair), an 'expired' one shows the expired value -/
+theorem restoreExp_valid (e : ExpCfg) (sv : SavedExp) (s : ExpState) (cl : List Call)
+    (h : restoreExp e sv = (.restored s, cl)) : ExpValid e sv.input.toList s := by
+  rcases sv with ⟨st, rem, input⟩
+  have key : ∀ (st' : St) (inp' : Option Val) (dl : Option Nat),
+      (st' = .valid → ∃ v w, input = some v ∧ inp' = some w ∧ Accepts e.v v w) →
+      ExpValid e input.toList ⟨st', inp', setOut .undef (calcOutput e st' inp'), 0, dl⟩ := by
+    intro st' inp' dl hv
+    cases st' with
+    | expired =>
+      simp only [ExpValid, calcOutput]
+      intro hx
+      have hu : e.expired.isUndef = false := (Val.isUndef_false_iff _).2 hx
+      simp [setOut, hu, store_pyEq]
+    | valid =>
+      obtain ⟨v, w, h1, h2, h3⟩ := hv rfl
+      subst h1; subst h2
+      simp only [ExpValid, calcOutput, Option.getD]
+      refine ⟨w, rfl, ⟨v, by simp, h3⟩, ?_⟩
+      intro hw
+      have hu : w.isUndef = false := (Val.isUndef_false_iff _).2 hw
+      simp [setOut, hu, store_pyEq]
+  cases st with
+  | expired =>
+    simp only [restoreExp, fsmRestore] at h
+    cases rem with
+    | none =>
+      simp only [Prod.mk.injEq, RestoreRes.restored.injEq] at h
+      rw [← h.1]; exact key _ _ _ (by intro hh; cases hh)
+    | some r =>
+      by_cases hr : r ≤ 0 <;> simp [hr] at h
+  | valid =>
+    cases input with
+    | none => simp [restoreExp] at h
+    | some v =>
+      cases hv : validate e.v v with
+      | none => simp [restoreExp, hv] at h
+      | some w =>
+        have hacc := (validate_iff e.v v w).1 hv
+        simp only [restoreExp, hv, fsmRestore] at h
+        cases rem with
+        | none =>
+          simp only [Prod.mk.injEq, RestoreRes.restored.injEq] at h
+          rw [← h.1]; exact key _ _ _ (fun _ => ⟨v, w, rfl, rfl, hacc⟩)
+        | some r =>
+          by_cases hr : r ≤ 0
+          · simp [hr] at h
+          · simp only [hr, if_false, Prod.mk.injEq, RestoreRes.restored.injEq] at h
+            rw [← h.1]; exact key _ _ _ (fun _ => ⟨v, w, rfl, rfl, hacc⟩)
+
+/-- the values a start-up can take over: the initdef and the value of the saved state -/
+def startVals (initdef : Val) (saved : Option SavedExp) : List Val :=
+  initdef :: (saved.bind (·.input)).toList
+
+/-- **output_always_valid** for InputExp: from a successfully constructed and started block – started
+    regularly or from ANY saved persistent state – after EVERY sequence of puts and waits: while 'valid'
+    the value part is the accepted conversion of a submitted value (initdef, saved value or put) and the
+    output equals it; when 'expired' the output equals the expired value, which itself passed the
+    validation -/
+theorem exp_output_always_valid (c : Cfg) (initdef expired : Val) (dur : Option Nat)
+    (inp : Option Val) (x : Val) (saved : Option SavedExp) (s0 : ExpState) (ops : List ExpOp)
     (hc : (constructExp c initdef expired).1 = .ok (inp, x)) (hh : c.allowedHashable = true)
-    (hs : initExp ⟨c, dur, x⟩ inp = some s0) :
+    (hs : (startExp ⟨c, dur, x⟩ inp saved).1 = some s0) :
     Accepts c expired x ∧
-    ExpValid ⟨c, dur, x⟩ (initdef :: putsOf ops) (runExp ⟨c, dur, x⟩ s0 ops) := by
+    ExpValid ⟨c, dur, x⟩ (startVals initdef saved ++ putsOf ops) (runExp ⟨c, dur, x⟩ s0 ops) := by
   have hc' := (exp_constructor_iff c initdef expired hh inp x).1 hc
   refine ⟨hc'.2, ?_⟩
-  have h0 : ExpValid ⟨c, dur, x⟩ [initdef] s0 := by
-    rcases hc'.1 with ⟨_, hi⟩ | ⟨_, w, hacc, hi⟩
-    · subst hi
-      simp only [initExp] at hs
-      split at hs
-      · cases hs
-      · injection hs with hs
-        subst hs
-        simp only [ExpValid]
-        intro _
-        exact Val.pyEq_refl x
-    · subst hi
-      simp only [initExp] at hs
-      split at hs
-      · cases hs
-      · injection hs with hs
-        subst hs
-        simp only [ExpValid]
-        exact ⟨w, rfl, ⟨initdef, by simp, hacc⟩, fun _ => Val.pyEq_refl w⟩
-  simpa using runExp_valid ⟨c, dur, x⟩ [initdef] s0 ops h0
+  have hinit : ∀ s, initExp ⟨c, dur, x⟩ inp = some s → ExpValid ⟨c, dur, x⟩ (startVals initdef saved) s :=
+    fun s h => ExpValid.mono _ [initdef] _ s (initExp_valid c initdef dur inp x s hc'.1 h)
+  have h0 : ExpValid ⟨c, dur, x⟩ (startVals initdef saved) s0 := by
+    cases saved with
+    | none => exact hinit s0 hs
+    | some sv =>
+      simp only [startExp] at hs
+      rcases hr : restoreExp ⟨c, dur, x⟩ sv with ⟨res, cl⟩
+      rw [hr] at hs
+      cases res with
+      | restored s =>
+        simp only at hs
+        split at hs
+        · exact hinit s0 hs
+        · injection hs with hs
+          subst hs
+          have := restoreExp_valid ⟨c, dur, x⟩ sv s cl hr
+          unfold ExpValid at this ⊢
+          split at this
+          · obtain ⟨w, hi, ⟨v, hv, ha⟩, ho⟩ := this
+            exact ⟨w, hi, ⟨v, by simp [startVals]; right; simpa using hv, ha⟩, ho⟩
+          · exact this
+      | ignored => exact hinit s0 hs
+      | failed => exact hinit s0 hs
+  exact runExp_valid ⟨c, dur, x⟩ _ s0 ops h0
+
+/-- **restore_validated** for InputExp (the repaired behaviour): a saved 'valid' state whose value is
+    refused by the validators (or is missing) is not restored at all – no state, no value, no timer is
+    taken over – and the block gets exactly its regular initialisation -/
+theorem exp_restore_validated (e : ExpCfg) (inp : Option Val) (rem : Option Int) (input : Option Val)
+    (h : ∀ v, input = some v → ¬ ∃ w, Accepts e.v v w) :
+    (startExp e inp (some ⟨.valid, rem, input⟩)).1 = initExp e inp := by
+  cases input with
+  | none => simp [startExp, restoreExp]
+  | some v =>
+    have hv : validate e.v v = none := by
+      cases hv : validate e.v v with
+      | none => rfl
+      | some w => exact absurd ⟨w, (validate_iff e.v v w).1 hv⟩ (h v rfl)
+    simp [startExp, restoreExp, hv]
+
+/-- … an accepted one is restored in its CONVERTED form `schema v` (as `Input._restore_state` does):
+    state 'valid', value and output `w`, the timer with its remaining time (none for an infinite one) -/
+theorem exp_restore_accepted (e : ExpCfg) (inp : Option Val) (rem : Option Int) (v w : Val)
+    (h : Accepts e.v v w) (hw : w ≠ .undef) (hr : ∀ r, rem = some r → 0 < r) :
+    (startExp e inp (some ⟨.valid, rem, some v⟩)).1 =
+      some ⟨.valid, some w, w, 0, rem.map Int.toNat⟩ := by
+  have hv := (validate_iff e.v v w).2 h
+  have hu : w.isUndef = false := (Val.isUndef_false_iff _).2 hw
+  cases rem with
+  | none => simp [startExp, restoreExp, hv, fsmRestore, calcOutput, setOut, hu, store_undef w hw]
+  | some r =>
+    have : ¬ r ≤ 0 := by have := hr r rfl; omega
+    simp [startExp, restoreExp, hv, fsmRestore, this, calcOutput, setOut, hu, store_undef w hw]
+
+/-- … and an overdue saved state is ignored whatever its value -/
+theorem exp_restore_overdue (e : ExpCfg) (inp : Option Val) (st : St) (r : Int) (input : Option Val)
+    (hr : r ≤ 0) : (startExp e inp (some ⟨st, some r, input⟩)).1 = initExp e inp := by
+  cases st with
+  | expired => simp [startExp, restoreExp, fsmRestore, hr]
+  | valid =>
+    cases input with
+    | none => simp [startExp, restoreExp]
+    | some v => cases hv : validate e.v v <;> simp [startExp, restoreExp, hv, fsmRestore, hr]
 
 /-- the value part after any sequence is the conversion of the last accepted put: `v` accepted
     with `w`, afterwards only waits and refused puts -/
@@ -591,8 +714,8 @@ example : (init exCfg (some (.lst [.num 1 .int])) (Val.int 1)).1 = .ok (Val.int 
 
 example : (constructExp exCfg (Val.int 1) (Val.bool true)).1 = .ok (some (Val.int 1), Val.str "a") ∧
     (constructExp exCfg (Val.int 1) .none).1 = .error .valueError ∧
-    ((initExp ⟨exCfg, 10, Val.str "a"⟩ (some (Val.int 1))).map
-      (fun s => (runExp ⟨exCfg, 10, Val.str "a"⟩ s [.wait 4, .put (Val.int 2), .wait 7, .put (Val.bool true), .wait 4]).out))
+    ((initExp ⟨exCfg, some 10, Val.str "a"⟩ (some (Val.int 1))).map
+      (fun s => (runExp ⟨exCfg, some 10, Val.str "a"⟩ s [.wait 4, .put (Val.int 2), .wait 7, .put (Val.bool true), .wait 4]).out))
       = some (Val.str "a") :=
   ⟨rfl, rfl, by decide +kernel⟩
 /-- the caller clears and refills its set between two puts: no effect -/
@@ -734,6 +857,18 @@ theorem translated_validate_exp_init_is_model (c : Cfg) (initdef expired : Val) 
           sdataInput := if initdef.isUndef then o.sdataInput else inp,
           expired := e }) :=
   expInit_eq c initdef expired o _ rfl
+
+/-- `InputExp._restore_state` (patches/C17-inputexp-restore-unvalidated.diff) IS the model's `restoreExp`:
+    for a saved 'valid' state `sdata['input']` goes through `_validate` BEFORE `FSM._restore_state` is
+    called – a missing or refused value raises and nothing (no state, no value, no timer) is restored –
+    and the FSM takes over the CONVERTED value; any other state is handed to the FSM as it is -/
+theorem translated_validate_exp_restore_is_model (e : ExpCfg) (o : Obj) (h : Agrees e.v o)
+    (he : o.expired = e.expired) (sv : SavedExp) :
+    (TrV.expRestoreState prims (savedOf sv) o).1 =
+        restoredObj { o with calls := o.calls ++ (restoreExp e sv).2.map tagOf } (restoreExp e sv).1 ∧
+    outKind (TrV.expRestoreState prims (savedOf sv) o).2 =
+        (match (restoreExp e sv).1 with | .failed => OutKind.raises | _ => OutKind.falls) :=
+  expRestoreState_eq e o h he sv
 
 /-- `InputExp.cond_put` IS the validating part of the model's `putExp` -/
 theorem translated_validate_cond_put_is_model (e : ExpCfg) (s : ExpState) (o : Obj) (h : Agrees e.v o)
